@@ -134,3 +134,40 @@ def matrix(names):
 if __name__ == "__main__" and sys.argv[1] == "matrix":
     names = sys.argv[2:] or sorted(n for n in os.listdir(os.path.join(VERIF, "seeded")) if os.path.isdir(os.path.join(VERIF, "seeded", n)))
     matrix(names)
+
+
+def own(names, procs=4):
+    """refresh, for every seed, the verdict of its OWN property's quick check on the current machinery (several seeds at a time)"""
+    from concurrent.futures import ThreadPoolExecutor
+
+    def one(name):
+        d = os.path.join(VERIF, "seeded", name)
+        m = load(name)
+        wt = "/tmp/seedo/" + name
+        sh("git -C /repo worktree remove --force %s" % wt)
+        sh("git -C /repo worktree add -q --detach %s HEAD" % wt)
+        rc, o = sh("git apply %s" % os.path.join(d, "patch.diff"), cwd=wt)
+        if rc != 0:
+            sh("git -C /repo worktree remove --force %s" % wt)
+            return name, "patch does not apply: " + o[:150]
+        evd = os.path.join(VERIF, ".scratch", "seedev", name)
+        os.makedirs(evd, exist_ok=True)
+        p = m["property"]
+        t0 = time.time()
+        rc, out = sh("./check %s --tier quick" % p, cwd=VERIF, env={"VERIF_REPO": wt, "VERIF_EVIDENCE_DIR": evd})
+        lines = [l for l in out.splitlines() if l.startswith("VIOLATION") or l.startswith("  ") or "MACHINERY" in l]
+        m = load(name)
+        m.setdefault("detected_by", {})[p] = {"exit": rc, "wall_s": round(time.time() - t0), "first_report": " ".join(lines[:2])[:500]}
+        save(name, m)
+        shutil.rmtree(evd, ignore_errors=True)
+        sh("git -C /repo worktree remove --force %s" % wt)
+        return name, "%s exit %d %s" % (p, rc, (lines[1][:120] if len(lines) > 1 else ""))
+
+    with ThreadPoolExecutor(max_workers=procs) as ex:
+        for name, res in ex.map(one, names):
+            print(name, res, flush=True)
+
+
+if __name__ == "__main__" and sys.argv[1] == "own":
+    names = sys.argv[2:] or sorted(n for n in os.listdir(os.path.join(VERIF, "seeded")) if os.path.isdir(os.path.join(VERIF, "seeded", n)))
+    own(names)
